@@ -21,7 +21,7 @@ ENGINE = "renderworld"
 SHRINK_LISTS = ("ops",)
 WATCH_FILES = ("ak/ppobj.py", "ak/color.py")
 REQUIRED_PROBES = ("probes", "probe_fresh", "probe_printed", "probe_inflight", "probe_ranged_printed",
-                   "noop_assign_inflight", "ctor_roundtrips", "setter_roundtrips", "tasks_completed")
+                   "noop_assign_inflight", "ctor_roundtrips", "setter_roundtrips", "tasks_completed", "siblings_from_str")
 
 REAL_VS_STUB = {'real': ['ak.color, ak.ppobj, ak.hdoc, ak.ghist (report building and formatting), ak.mcaller_http (help of method callers)'], 'stub': ['id() as seen by ak.ppobj/ak.color/ak.hdoc/ak.ghist -> simulated allocator with adversarial re-use', 'cyclic GC timing -> gc.disable() + scheduled gc.collect()', 'the git repository behind ProjectRepo -> deterministic in-memory fake (sim/fakegit.py)', 'process-global state -> one fresh forked process per run, one pristine forked process per reference rendering', 'ssl.SSLContext.load_default_certs -> no-op; logging disabled']}
 
@@ -76,6 +76,16 @@ def gen_fmt(rng, fields, has_enum, allow_hidden=True):
         if not visible:
             parts.append(fields[0])
         cols = ",".join(parts)
+    if cols != "*" and rng.random() < 0.15:
+        # break lines together with limits that hide records: which records are visible (and so the
+        # negotiated widths) depends on the break-by columns
+        if "!" not in cols:
+            parts = cols.split(",")
+            i = rng.randrange(len(parts))
+            head, sep, tail = parts[i].partition(":")
+            parts[i] = head + "!" + sep + tail
+            cols = ",".join(parts)
+        return cols + f";{rng.randint(1, 2)}:{rng.randint(0, 2)}"
     r = rng.random()
     if r < 0.3:
         return cols + f";{rng.randint(0, 4)}:{rng.randint(0, 4)}"
@@ -165,21 +175,22 @@ def generate(rng, tier):
             elif which == "limits":
                 op["fmt"] = f";{rng.randint(0, 4)}:{rng.randint(0, 4)}"
             ops.append(op)
-        elif r < 0.90:
+        elif r < 0.89:
             ops.append({"op": "save_fmt"})
-        elif r < 0.95:
+        elif r < 0.955:
             ops.append({"op": "remove_columns", "names": rng.sample(fields, rng.randint(1, 2)),
-                        "via_fmt_obj": rng.random() < 0.4})
-        elif r < 0.965:
+                        "via_fmt_obj": rng.random() < 0.4, "breaks": rng.random() < 0.4})
+        elif r < 0.962:
             ops.append({"op": "set_fmt_invalid", "fmt": rng.choice([
                 "nosuchfield", fields[0] + ":x", fields[0] + ":1-2-3", fields[0] + ":1:2", ";1", ";a:b", ";1:2:3",
                 "a;b;c;d", fields[0] + ",nosuchfield:3", fields[0] + "/nosuchmodifier"])})
-        elif r < 0.975:
+        elif r < 0.97:
             ops.append({"op": "fmt_obj_ctor"})
         else:
             # a sibling table built from this table's format object, showing other records
             ops.append({"op": "sibling", "keep": rng.choice(["half", "odd", "all", "first"]),
-                        "limits": rng.choice([None, None, [1, 1], [0, 2], [2, 0]])})
+                        "limits": rng.choice([None, None, [1, 1], [0, 2], [2, 0], [1, 0]]),
+                        "via_str": rng.random() < 0.45})
     ntbl = 1 + sum(1 for o in ops if o["op"] == "sibling")
     if ntbl > 1:
         seen = 1
@@ -243,7 +254,7 @@ class World:
                       "ctor_roundtrips": 0, "setter_roundtrips": 0, "tasks_completed": 0, "tasks_invalidated": 0,
                       "tasks_abandoned": 0, "task_steps": 0, "renders": 0, "removed": 0, "fmt_obj_ctor": 0,
                       "agreed_errors": 0, "limits_in_fmt": 0, "lines_skipped_states": 0, "siblings": 0,
-                      "probe_sibling": 0}
+                      "probe_sibling": 0, "siblings_from_str": 0}
 
 
 
@@ -401,7 +412,13 @@ def execute(trace, rng):
                 if len(w.ctxs) >= 3:
                     continue
                 nc = Ctx(op.get("keep", "all"), op.get("limits"))
-                nc.table = sut("PPTable(other records, fmt_obj=table.fmt)", build_table, w, None, t.fmt, True, nc)
+                if op.get("via_str"):
+                    # ... or from the format string the table reports, with other records / a limits argument
+                    s = sut("str(table.fmt)", str, t.fmt)
+                    nc.table = sut("PPTable(other records, fmt=str(table.fmt), limits=...)", build_table, w, s, None, True, nc)
+                    w.stats["siblings_from_str"] += 1
+                else:
+                    nc.table = sut("PPTable(other records, fmt_obj=table.fmt)", build_table, w, None, t.fmt, True, nc)
                 w.ctxs.append(nc)
                 w.stats["siblings"] += 1
             elif k == "render":
@@ -554,6 +571,11 @@ def execute(trace, rng):
                 c.saved.append(sut("str(table.fmt)", str, t.fmt))
             elif k == "remove_columns":
                 cur = columns_of(str(t.fmt))
+                if op.get("breaks"):
+                    # aim at the break-by columns of the format in force (if any)
+                    brk = [columns_of(x)[0] for x in str(t.fmt).split(";")[0].split(",") if "!" in x and columns_of(x)]
+                    if brk:
+                        op = dict(op, names=brk)
                 left = [c for c in cur if c not in op["names"]]
                 if not left or len(left) == len(cur):
                     continue
